@@ -41,7 +41,8 @@ type Shape struct {
 
 type Case struct {
 	CPU      float64
-	Anchor   [3]int // block-boundary multiples
+	Anchor   [3]int  // block-boundary multiples
+	Half     [3]bool // anchor moved to the middle of the block on that axis (shape inside one block)
 	Shapes   []Shape
 	CutCells float64 // cutoff = -CutCells * cell
 	Combine  bool    // Field.Combine instead of CombineFields
@@ -63,6 +64,7 @@ func genCase(t *rapid.T) Case {
 	}
 	for i := 0; i < 3; i++ {
 		c.Anchor[i] = rapid.IntRange(-span, span).Draw(t, "anchor")
+		c.Half[i] = rapid.IntRange(0, 2).Draw(t, "mid") == 0
 	}
 	n := rapid.IntRange(1, 3).Draw(t, "shapes")
 	off := func(l string) float64 { return rapid.Float64Range(-9, 9).Draw(t, l) }
@@ -134,7 +136,13 @@ func runCase(c Case, o *vh.Obs) *vh.Failure {
 	}
 	cpu := c.CPU
 	cell := 1 / cpu
-	anchor := vector3.New(float64(c.Anchor[0]), float64(c.Anchor[1]), float64(c.Anchor[2])).Scale(100 * cell)
+	half := func(b bool) float64 {
+		if b {
+			return 0.5
+		}
+		return 0
+	}
+	anchor := vector3.New(float64(c.Anchor[0])+half(c.Half[0]), float64(c.Anchor[1])+half(c.Half[1]), float64(c.Anchor[2])+half(c.Half[2])).Scale(100 * cell)
 	var fields []marching.Field
 	var exact []func(V) float64
 	lo := vector3.New(math.Inf(1), math.Inf(1), math.Inf(1))
